@@ -237,7 +237,8 @@ def main():
         print('VIOLATION property=%s replay=%s no-failing-input-found' % (pid, path))
         status = 1
 
-    write_evidence(pid, args.tier, seed, run, info, time.time() - t0, status)
+    if not args.no_build:   # development runs without the proof audit never overwrite the evidence
+        write_evidence(pid, args.tier, seed, run, info, time.time() - t0, status)
     if status == 0:
         print('PASS property=%s tier=%s evaluations=%d distinct_nontrivial=%d theorems=%d/%d wall=%.1fs%s' % (
             pid, args.tier, run.evaluations, len(run.distinct), info['discharged'], info['obligations'],
